@@ -94,6 +94,8 @@ impl ValidationContext {
 
         // Validate each flow
         for flow in story.flows() {
+            self.validate_flow_name_is_not_a_number(flow)?;
+
             // Validate that function purity rules are respected
             self.validate_function_purity(flow)?;
 
@@ -125,6 +127,7 @@ impl ValidationContext {
             // Validate stitch names don't collide with VAR names
             for stitch in &flow.children {
                 self.validate_stitch_name(stitch)?;
+                self.validate_flow_name_is_not_a_number(stitch)?;
 
                 let stitch_params: BTreeSet<String> = stitch.parameters.iter().cloned().collect();
                 let stitch_divert_params: BTreeSet<String> =
